@@ -49,6 +49,10 @@ type Stmt struct {
 	ElseH    int    `json:"elseH,omitempty"`
 	Else     bool   `json:"else,omitempty"`
 	Inner    []Stmt `json:"inner,omitempty"`
+	// widening a5 (checklist audit; all optional, so that older replay files still load)
+	OpenOwn bool `json:"openOwn,omitempty"` // "(" of a multi-line condition ends its line: the first operand stands on the next line
+	IfAlone bool `json:"ifAlone,omitempty"` // the keyword `if` on a line of its own above the condition's "("
+	Arrow   bool `json:"arrow,omitempty"`   // switch statement written with `case X ->` rules
 }
 
 // Method kinds: "normal", "getter", "setter", "abstract" (no body); in interfaces also
@@ -75,6 +79,8 @@ type Method struct {
 	// BraceNext, SplitHead, RichParams as for an ordinary method. Methods of the other kinds may
 	// carry a name that merely starts with get/set/is (see accessorLike).
 	Full bool `json:"full,omitempty"`
+	// widening a5: with SplitHead, the return type itself is broken over two lines (inside its type arguments)
+	SplitRet bool `json:"splitRet,omitempty"`
 }
 
 type File struct {
@@ -96,6 +102,10 @@ type File struct {
 	CRLF      bool `json:"crlf,omitempty"`      // Windows line ends
 	ClassMods int  `json:"classMods,omitempty"` // 0 public; 1 package-private; 2 public final; 3 @Deprecated on its own line; 4 @SuppressWarnings("unused") on the declaration line; 5 generic type parameter
 	InitBlock int  `json:"initBlock,omitempty"` // 0 none; 1 static initialiser, 2 instance initialiser: long, full of ifs, one tall condition - not a method
+	// widening a5
+	RichFill bool `json:"richFill,omitempty"` // filler lines drawn from a wider table of one-line statements (object creation, call chains, method references, casts, labels, literals that look like code ...)
+	Tail     int  `json:"tail,omitempty"`     // 0 the file ends with "}\n"; 1 no final newline; 2 blank lines and a comment after the closing brace
+	LongLine bool `json:"longLine,omitempty"` // a comment line of more than 65536 bytes at the top of the file
 }
 
 type Case struct {
@@ -105,7 +115,14 @@ type Case struct {
 	RelDir bool     `json:"relDir,omitempty"` // CLI: pass a relative -p
 	// widening w4
 	DirStyle  int `json:"dirStyle,omitempty"`  // CLI: 0 as RelDir says; 1 "./src"; 2 "src/"; 3 run inside src without -p (the default ".")
-	FlagStyle int `json:"flagStyle,omitempty"` // CLI: 0 `-x a,b -s type`; 1 `-x=a,b -s=type`; 2 `--ignore a,b --sort type`; 3 `--ignore=a,b --sort=type`
+	FlagStyle int `json:"flagStyle,omitempty"` // CLI: 0 `-p d -x a,b -s type`; 1 `-p=d -x=a,b -s=type`; 2 `--path d --ignore a,b --sort type`; 3 `--path=d --ignore=a,b --sort=type`
+	// widening a5
+	Prior       []File   `json:"prior,omitempty"`       // API: another tree, analysed (and reported under PriorIgnore) in the same process right before this one
+	PriorIgnore []string `json:"priorIgnore,omitempty"` //
+	PriorSame   bool     `json:"priorSame,omitempty"`   // ... under the very path this tree is then written to (the directory's content changes between two analyses)
+	Single      bool     `json:"single,omitempty"`      // the path handed to the tool is that of the first file, not of the directory: the report is about that file alone
+	Stray       bool     `json:"stray,omitempty"`       // files that are no Java sources lie in the tree (notes.txt, X.java.orig, X.javax, X.kt)
+	StaleReport bool     `json:"staleReport,omitempty"` // CLI: coca_reporter/bs.json exists already (longer than any report) when the tool starts
 }
 
 type SweepCase struct {
@@ -121,6 +138,9 @@ type SweepCase struct {
 	InterfaceBodies bool `json:"interfaceBodies,omitempty"` // ... and default methods of interfaces
 	// widening r4
 	Accessors bool `json:"accessors,omitempty"` // boundary classes whose method-level parameters sit on getters/setters and on methods named like accessors
+	// widening a5
+	Layouts bool `json:"layouts,omitempty"` // boundary classes with "(" / `if` on lines of their own, arrow-form switches, bare blocks and labels as decoys, return types over two lines
+	Arrows  bool `json:"arrows,omitempty"`  // ... the arrow-form switches among them
 }
 
 // ---------------------------------------------------------------------------------------
@@ -155,6 +175,7 @@ type jw struct {
 	unit string
 	v    int  // counter for fresh local names
 	join bool // the next line continues the line written last
+	rich bool // filler from the wider table (File.RichFill)
 }
 
 // ln writes one line and returns its number. With w.join set the text is appended to the
@@ -246,6 +267,10 @@ func (w *jw) signature(depth int, prefix string, params []string, suffix string,
 func (w *jw) fill(depth, n int) {
 	for i := 0; i < n; i++ {
 		k := w.fresh()
+		if w.rich && k%3 != 0 {
+			w.ln(depth, richLine(k))
+			continue
+		}
 		switch k % 6 {
 		case 0:
 			w.ln(depth, fmt.Sprintf("int v%d = %d;", k, k))
@@ -263,18 +288,77 @@ func (w *jw) fill(depth, n int) {
 	}
 }
 
+// richLines: one-line statements and comments that are neither an if nor a switch statement,
+// whatever they contain or look like: object and array creation, call chains, method
+// references, lambdas in arguments, conditional expressions, casts, labelled and empty
+// statements, assertions, a switch expression as an initialiser, literals and comments that
+// look like code. %d is replaced by a number that keeps local names apart.
+var richLines = []string{
+	"Object o%d = new Object();",
+	"StringBuilder sb%d = new StringBuilder(\"if (\").append(n0).append(')');",
+	"long c%d = names.stream().map(String::trim).filter(s -> s.length() > n0).count();",
+	"n0 = n0 > %d ? n0 - 1 : n0 + 1;",
+	"final long t%d = (long) n0 << 2;",
+	"int[] arr%d = new int[] {1, 2, 3};",
+	"int[][] grid%d = new int[3][n0 + 1];",
+	"assert n0 >= 0 : \"switch (n0) { case %d: \";",
+	"this.names.add(\"x\" + n0);",
+	"super.toString();",
+	"char ch%d = '{';",
+	"String t%d = \"// not a comment */ \" + '\"' + \"/* nor this\";",
+	"/* if (n0 > %d) { */ n0++; /* } */",
+	"// public void fake%d(int a, int b, int c, int d, int e, int f, int g) {",
+	"java.util.List<String> l%d = new java.util.ArrayList<>();",
+	"@SuppressWarnings(\"unused\") final int q%d = n0;",
+	"var w%d = names.get(0);",
+	"Runnable r%d = this::toString;",
+	"n0 = Math.max(n0, Integer.parseInt(\"1\" + n0));",
+	"String u%d = String.format(\"%s if\", n0).trim().toLowerCase();",
+	";",
+	"iffy%d: n0++;",
+	"switcher%d: n0--;",
+	"ifCount(n0); switchOn(n0);",
+	"boolean iffy%d = (n0 > 1);",
+	"(n0 > 2 ? names : this.names).size();",
+	"String z%d = (String) names.get(0);",
+	"this.<String>pick(names);",
+	"n0 += names.isEmpty() ? 0 : names.get(0).length();",
+	"int k%d = switch (n0) { case 1 -> 2; default -> 3; };",
+	"names.forEach(e -> { if (e.isEmpty()) { n0++; } });",
+	"Object a%d = java.util.Arrays.asList(new String[] {\"if\", \"switch\"});",
+	"// } } }",
+	"/** class Fake%d { void none() { } } */",
+	"double d%d = 1e3 + 0x1F + 07 + 1_000 + .5f;",
+	"String e%d = null; Object f%d = e%d;",
+}
+
+func richLine(k int) string {
+	return strings.ReplaceAll(richLines[(k-k/3-1)%len(richLines)], "%d", strconv.Itoa(k))
+}
+
 // cond writes `<head>(<condition over h lines>)<tail>` and returns the lines of "(" and ")".
-func (w *jw) cond(depth int, head string, h int, closeOwn bool, tail string) (int, int) {
+// openOwn: nothing follows "(" on its line (the first operand stands on the next line);
+// closeOwn: ")" stands on a line of its own.
+func (w *jw) cond(depth int, head string, h int, closeOwn bool, tail string, openOwnOpt ...bool) (int, int) {
+	openOwn := len(openOwnOpt) > 0 && openOwnOpt[0]
 	if h <= 1 {
 		n := w.ln(depth, fmt.Sprintf("%s(n0 > %d)%s", head, w.fresh(), tail))
 		return n, n
 	}
-	first := w.ln(depth, fmt.Sprintf("%s(n0 > %d", head, w.fresh()))
-	last := first
-	operands := h - 1
+	if openOwn && closeOwn && h < 3 {
+		closeOwn = false // "(" and ")" on lines of their own need a line for the operand between them
+	}
+	operands := h - 1 // operand lines below the line of "("
 	if closeOwn {
 		operands = h - 2
 	}
+	var first int
+	if openOwn {
+		first = w.ln(depth, head+"(")
+	} else {
+		first = w.ln(depth, fmt.Sprintf("%s(n0 > %d", head, w.fresh()))
+	}
+	last := first
 	for i := 0; i < operands; i++ {
 		op := "&&"
 		if i%2 == 1 {
@@ -282,6 +366,15 @@ func (w *jw) cond(depth int, head string, h int, closeOwn bool, tail string) (in
 		}
 		k := w.fresh()
 		text := fmt.Sprintf("%s n0 < %d", op, k)
+		if openOwn {
+			if i == 0 {
+				text = fmt.Sprintf("n0 > %d", k)
+			} else if i%2 == 0 {
+				text = fmt.Sprintf("|| n0 < %d", k)
+			} else {
+				text = fmt.Sprintf("&& n0 < %d", k)
+			}
+		}
 		if !closeOwn && i == operands-1 {
 			text += ")" + tail
 		} else if k%4 == 0 {
@@ -307,6 +400,12 @@ func (w *jw) stmt(depth int, s Stmt, top bool, t *methodTruth) {
 		w.fill(depth, s.N)
 	case "if":
 		var a, b int
+		head, cd := "if ", depth
+		if s.IfAlone {
+			// the keyword on a line of its own; the condition (and its line record) starts at "("
+			w.ln(depth, "if")
+			head, cd = "", depth+1
+		}
 		if s.Compact {
 			// brace-less; an else-if chain, if any, follows on the same line
 			tail := fmt.Sprintf(" n0 -= %d;", w.fresh())
@@ -316,15 +415,15 @@ func (w *jw) stmt(depth int, s Stmt, top bool, t *methodTruth) {
 			if s.Else {
 				tail += " else n0++;"
 			}
-			a, b = w.cond(depth, "if ", s.H, s.CloseOwn, tail)
+			a, b = w.cond(cd, head, s.H, s.CloseOwn, tail, s.OpenOwn)
 		} else {
-			a, b = w.cond(depth, "if ", s.H, s.CloseOwn, " {")
+			a, b = w.cond(cd, head, s.H, s.CloseOwn, " {", s.OpenOwn)
 			if len(s.Inner) == 0 {
 				w.fill(depth+1, 1)
 			}
 			w.block(depth+1, s.Inner, t)
 			for i := 0; i < s.ElseIfs; i++ {
-				w.cond(depth, "} else if ", s.ElseH, s.CloseOwn, " {")
+				w.cond(depth, "} else if ", s.ElseH, s.CloseOwn, " {", s.OpenOwn)
 				w.fill(depth+1, 1)
 			}
 			if s.Else {
@@ -337,9 +436,33 @@ func (w *jw) stmt(depth int, s Stmt, top bool, t *methodTruth) {
 			t.Ifs = append(t.Ifs, ifTruth{ParenLine: a, Height: b - a + 1})
 		}
 	case "switch":
-		if s.Compact {
+		switch {
+		case s.Arrow && s.Compact:
+			w.ln(depth, fmt.Sprintf("switch (n0) { case %d -> n0++; default -> n0--; }", w.fresh()))
+		case s.Arrow:
+			// a switch statement written with rules
+			w.ln(depth, "switch (n0) {")
+			for i := 0; i < s.N; i++ {
+				if i == 0 {
+					w.ln(depth+1, "case 0 -> {")
+					w.block(depth+2, s.Inner, t)
+					w.ln(depth+2, fmt.Sprintf("n0 = %d;", w.fresh()))
+					w.ln(depth+1, "}")
+				} else {
+					w.ln(depth+1, fmt.Sprintf("case %d, %d -> n0 = %d;", 2*i, 2*i+1, w.fresh()))
+				}
+			}
+			if s.N == 0 && len(s.Inner) > 0 {
+				w.ln(depth+1, "default -> {")
+				w.block(depth+2, s.Inner, t)
+				w.ln(depth+1, "}")
+			} else {
+				w.ln(depth+1, "default -> n0--;")
+			}
+			w.ln(depth, "}")
+		case s.Compact:
 			w.ln(depth, fmt.Sprintf("switch (n0) { case %d: n0++; break; default: break; }", w.fresh()))
-		} else {
+		default:
 			w.ln(depth, "switch (n0) {")
 			for i := 0; i < s.N; i++ {
 				w.ln(depth+1, fmt.Sprintf("case %d:", i))
@@ -386,6 +509,25 @@ func (w *jw) stmt(depth int, s Stmt, top bool, t *methodTruth) {
 		w.ln(depth, fmt.Sprintf("} catch (RuntimeException ex%d) {", w.fresh()))
 		w.stmt(depth+1, Stmt{Kind: "if", H: 1}, false, t)
 		w.ln(depth, "} finally {")
+		w.fill(depth+1, 1)
+		w.ln(depth, "}")
+	case "block":
+		// a bare block: what it holds is not at the top level of the method
+		w.ln(depth, "{")
+		w.block(depth+1, s.Inner, t)
+		w.ln(depth, "}")
+	case "labeled":
+		// a labelled loop: a statement that starts with a name and holds ifs
+		k := w.fresh()
+		w.ln(depth, fmt.Sprintf("iffy%d: for (int i%d = 0; i%d < n0; i%d++) {", k, k, k, k))
+		w.block(depth+1, s.Inner, t)
+		w.ln(depth+1, fmt.Sprintf("if (n0 > %d) { break iffy%d; }", w.fresh(), k))
+		w.ln(depth, "}")
+	case "trywith":
+		k := w.fresh()
+		w.ln(depth, fmt.Sprintf("try (java.io.Reader rd%d = new java.io.StringReader(\"if (\" + n0); java.io.Closeable cl%d = rd%d) {", k, k, k))
+		w.block(depth+1, s.Inner, t)
+		w.ln(depth, fmt.Sprintf("} catch (java.io.IOException | RuntimeException ex%d) {", w.fresh()))
 		w.fill(depth+1, 1)
 		w.ln(depth, "}")
 	case "sync":
@@ -506,7 +648,14 @@ func (w *jw) method(depth int, m Method, inInterface bool) methodTruth {
 		if m.Mods != "" {
 			first = m.Mods + " " + ret
 		}
-		t.DeclLine = w.ln(depth, first)
+		if cut := strings.Index(ret, ", "); m.SplitRet && cut >= 0 {
+			// the return type itself goes over two lines (broken inside its type arguments): the
+			// declaration starts on the first, next to the modifiers
+			t.DeclLine = w.ln(depth, first[:len(first)-len(ret)+cut+1])
+			w.ln(depth+2, ret[cut+2:])
+		} else {
+			t.DeclLine = w.ln(depth, first)
+		}
 		w.signature(depth+2, m.Name, params, suffix, m.WrapParams, " {")
 	} else {
 		t.DeclLine = w.signature(depth, prefix, params, suffix, m.WrapParams, tail)
@@ -565,7 +714,7 @@ func (w *jw) openBrace(depth int, head string, next bool) int {
 var indentUnits = []string{"    ", "  ", "\t"}
 
 func render(f File) fileTruth {
-	w := &jw{next: 1, unit: indentUnits[f.Indent%len(indentUnits)]}
+	w := &jw{next: 1, unit: indentUnits[f.Indent%len(indentUnits)], rich: f.RichFill}
 	rel := f.Name + ".java"
 	if f.Dir != "" {
 		rel = f.Dir + "/" + rel
@@ -573,6 +722,10 @@ func render(f File) fileTruth {
 	t := fileTruth{Rel: rel, Interface: f.Interface, HasType: f.Name != "package-info"}
 	for i := 0; i < f.Header; i++ {
 		w.ln(0, fmt.Sprintf("// header line %d { if (", i))
+	}
+	if f.LongLine {
+		// one line longer than any common buffer
+		w.ln(0, "// "+strings.Repeat("if (a) { switch (b) { } } ", 2800))
 	}
 	if f.Package != "" {
 		w.ln(0, "package "+f.Package+";")
@@ -582,7 +735,7 @@ func render(f File) fileTruth {
 		t.Text = w.sb.String()
 		return t
 	}
-	imports := []string{"java.util.List", "java.util.Map", "java.io.IOException"}
+	imports := []string{"java.util.List", "java.util.Map", "java.io.IOException", "static java.lang.Math.max", "java.util.concurrent.*", "static java.util.Objects.*", "java.util.List"}
 	for i := 0; i < f.Imports && i < len(imports); i++ {
 		w.ln(0, "import "+imports[i]+";")
 	}
@@ -678,6 +831,12 @@ func render(f File) fileTruth {
 	}
 	w.ln(0, "}")
 	t.Text = w.sb.String()
+	switch f.Tail {
+	case 1:
+		t.Text = strings.TrimSuffix(t.Text, "\n") // the closing brace is the last byte of the file
+	case 2:
+		t.Text += "\n\n// end of " + f.Name + " { if (\n\n"
+	}
 	if f.CRLF {
 		t.Text = strings.ReplaceAll(t.Text, "\n", "\r\n")
 	}
@@ -692,6 +851,7 @@ func render(f File) fileTruth {
 const (
 	varargsFeature       = "varargs_parameter"
 	interfaceBodyFeature = "interface_method_with_body"
+	arrowFeature         = "arrow_switch_statement"
 )
 
 const (
@@ -1007,13 +1167,21 @@ func resetState() {
 	bs.VerifResetBs()
 }
 
-func writeTree(root string, truths []fileTruth) {
+func writeTree(root string, truths []fileTruth, stray ...bool) {
 	files := map[string]string{}
 	for _, t := range truths {
 		if _, dup := files[t.Rel]; dup {
 			panic("GENERATOR BUG: two files named " + t.Rel)
 		}
 		files[t.Rel] = t.Text
+	}
+	if len(stray) > 0 && stray[0] && len(truths) > 0 {
+		for rel, text := range strayFiles(truths) {
+			if _, dup := files[rel]; dup || strings.HasSuffix(rel, ".java") {
+				panic("GENERATOR BUG: stray file named " + rel)
+			}
+			files[rel] = text
+		}
 	}
 	cli.WriteTree(root, files)
 }
@@ -1032,20 +1200,84 @@ func texts(truths []fileTruth) string {
 
 func isSizedKind(k string) bool { return sized[k] }
 
+// apiOpt: variations of how the API is driven.
+type apiOpt struct {
+	Path        string      // handed to AnalysisPath instead of the directory: the path of file number Only
+	Only        int         //
+	PriorRoot   string      // a tree analysed and reported (under PriorIgnore) first, in the same process, without any reset in between
+	PriorTruths []fileTruth //
+	PriorIgnore []string    //
+	Prepare     func()      // called between the analysis of the tree analysed first and that of the tree under judgement (writes the latter)
+}
+
+// strayFiles: files that are no Java sources, whatever they hold.
+func strayFiles(truths []fileTruth) map[string]string {
+	lazy := "public class Stray {\n}\n"
+	dir := ""
+	if i := strings.LastIndex(truths[0].Rel, "/"); i >= 0 {
+		dir = truths[0].Rel[:i+1]
+	}
+	return map[string]string{
+		"notes.txt":             "class Notes { }\n",
+		".gitignore":            "# build output\n*.class\n*.log\n/target/\nnode_modules/\n",
+		truths[0].Rel + ".orig": lazy,
+		truths[0].Rel + "~":     lazy,
+		dir + "Helper.kt":       "class Helper\n",
+		"gen/Model.javax":       lazy,
+		"gen/java":              lazy,
+		dir + "Stray.java.txt":  lazy,
+		dir + "StrayJava":       lazy,
+		dir + "Stray.jav":       lazy,
+	}
+}
+
 // judgeAPI runs the API on a written tree and checks the exactness, ignore and sort
 // clauses for every ignore list given. Returns "" or a violation text.
-func judgeAPI(root string, truths []fileTruth, ignores [][]string, sortToo bool) string {
+func judgeAPI(root string, truths []fileTruth, ignores [][]string, sortToo bool, opts ...apiOpt) string {
+	var opt apiOpt
+	if len(opts) > 0 {
+		opt = opts[0]
+	}
 	var want []finding
-	for _, t := range truths {
+	for i, t := range truths {
+		if opt.Path != "" && i != opt.Only {
+			continue // the tool is pointed at one file: the others are none of its business
+		}
 		want = append(want, expectedOf(root, t)...)
 	}
+	path := root
+	if opt.Path != "" {
+		path = opt.Path
+	}
 	resetState()
+	if opt.PriorRoot != "" {
+		// another tree goes through the same process first; nothing of it may show below
+		var wantPrior []finding
+		for _, t := range opt.PriorTruths {
+			wantPrior = append(wantPrior, expectedOf(opt.PriorRoot, t)...)
+		}
+		var got []bs_domain.BadSmellModel
+		if p := pbt.Call(func() {
+			quiet(func() {
+				priorApp := bs.NewBadSmellApp()
+				got = priorApp.IdentifyBadSmell(priorApp.AnalysisPath(opt.PriorRoot), opt.PriorIgnore)
+			})
+		}); p != "" {
+			return "AnalysisPath/IdentifyBadSmell on the tree analysed first panicked: " + p
+		}
+		if d := diff(keys(without(wantPrior, opt.PriorIgnore)), keys(seven(got))); d != "" {
+			return fmt.Sprintf("the report on the tree analysed first (ignore=%v) differs from the findings its sources call for:\n%s", opt.PriorIgnore, d)
+		}
+	}
+	if opt.Prepare != nil {
+		opt.Prepare()
+	}
 	app := bs.NewBadSmellApp()
 	var nodes *[]bs_domain.BSDataStruct
 	var base []bs_domain.BadSmellModel
 	if p := pbt.Call(func() {
 		quiet(func() {
-			nodes = app.AnalysisPath(root)
+			nodes = app.AnalysisPath(path)
 			base = app.IdentifyBadSmell(nodes, nil)
 		})
 	}); p != "" {
@@ -1100,11 +1332,8 @@ func judgeAPI(root string, truths []fileTruth, ignores [][]string, sortToo bool)
 }
 
 func runCLI(cwd string, dirArg string, ignore []string, sortType bool, flagStyle int) (flat []bs_domain.BadSmellModel, grouped map[string][]bs_domain.BadSmellModel, problem string) {
-	_ = os.RemoveAll(filepath.Join(cwd, "coca_reporter"))
+	// coca_reporter is left as the run before (or the case) left it: a report overwrites what is there
 	args := []string{"bs"}
-	if dirArg != "" {
-		args = append(args, "-p", dirArg)
-	}
 	opt := func(short, long, value string) {
 		switch flagStyle % 4 {
 		case 0:
@@ -1116,6 +1345,9 @@ func runCLI(cwd string, dirArg string, ignore []string, sortType bool, flagStyle
 		default:
 			args = append(args, long+"="+value)
 		}
+	}
+	if dirArg != "" {
+		opt("-p", "--path", dirArg)
 	}
 	if len(ignore) > 0 {
 		opt("-x", "--ignore", strings.Join(ignore, ","))
@@ -1276,6 +1508,37 @@ func classify(c Case, truths []fileTruth, want []finding, mode string) pbt.Verdi
 		if f.InitBlock != 0 {
 			labels["decoy_initialiser_block"] = true
 		}
+		if f.RichFill {
+			labels["filler_from_wider_statement_table"] = true
+		}
+		if f.Abstract && normal == 0 && !t.Interface {
+			labels["abstract_class_without_ordinary_methods"] = true
+		}
+		switch f.Tail {
+		case 1:
+			labels["no_final_newline"] = true
+		case 2:
+			labels["text_after_closing_brace"] = true
+		}
+		if f.LongLine {
+			labels["line_longer_than_65536_bytes"] = true
+		}
+		if f.Imports > 3 {
+			labels["static_or_wildcard_imports"] = true
+		}
+		for _, special := range classNames[13:] {
+			if strings.HasPrefix(f.Name, special) {
+				labels["class_name_special_characters_or_tool_word"] = true
+			}
+		}
+		for _, special := range dirs[7:] {
+			if f.Dir == special {
+				labels["directory_named_like_kind_or_near_test_directory"] = true
+			}
+		}
+		if t.HasType && !t.Interface && normal == 0 && gs >= 19 {
+			labels["data_class_with_about_20_accessors"] = true
+		}
 		for j, other := range c.Files {
 			if j != i && other.Name == f.Name {
 				labels["same_class_name_in_two_directories"] = true
@@ -1323,6 +1586,20 @@ func classify(c Case, truths []fileTruth, want []finding, mode string) pbt.Verdi
 			if !isGS(m.Kind) && !accessorLike(m.Name) && (strings.Contains(m.Name, "get") || strings.Contains(m.Name, "set")) {
 				labels["ordinary_name_containing_get_or_set"] = true
 			}
+			if m.SplitRet && m.SplitHead {
+				labels["return_type_over_two_lines"] = true
+			}
+			if strings.Contains(m.Mods, "native") {
+				labels["native_method"] = true
+			}
+			for _, odd := range oddNames {
+				if strings.HasPrefix(m.Name, odd) && !isGS(m.Kind) && !accessorLike(m.Name) {
+					labels["ordinary_name_with_special_characters_case_or_length"] = true
+					if lower := strings.ToLower(m.Name); strings.HasPrefix(lower, "get") || strings.HasPrefix(lower, "set") {
+						labels["ordinary_name_get_or_set_prefix_in_other_case"] = true
+					}
+				}
+			}
 		}
 		sort.Strings(vecs)
 		canon = append(canon, fmt.Sprintf("%v/%v[%s]", t.Interface, t.HasType, strings.Join(vecs, ",")))
@@ -1361,8 +1638,36 @@ func classify(c Case, truths []fileTruth, want []finding, mode string) pbt.Verdi
 			labels["ignore_name_that_is_no_kind"] = true
 		}
 	}
-	if c.DirStyle != 0 {
+	if c.DirStyle != 0 && !c.Single {
 		labels[fmt.Sprintf("cli_dir_style_%d", c.DirStyle)] = true
+	}
+	if len(c.Prior) > 0 {
+		labels["another_tree_analysed_first_in_same_process"] = true
+		if len(c.PriorIgnore) > 0 {
+			labels["another_tree_first_with_ignore_list"] = true
+		}
+		if c.PriorSame {
+			labels["same_directory_analysed_twice_with_changed_content"] = true
+		}
+	}
+	if c.Single {
+		labels["path_of_a_single_file"] = true
+	}
+	if c.Stray {
+		labels["non_java_files_in_tree"] = true
+	}
+	if c.StaleReport {
+		labels["stale_report_files_present"] = true
+	}
+	for i, k := range c.Ignore {
+		if k == "" {
+			labels["ignore_empty_name"] = true
+		}
+		for j := 0; j < i; j++ {
+			if isSeven[k] && isSeven[c.Ignore[j]] && kindIndex(c.Ignore[j]) > kindIndex(k) {
+				labels["ignore_names_in_another_order"] = true
+			}
+		}
 	}
 	if c.FlagStyle != 0 {
 		labels["cli_flag_spelling_variant"] = true
@@ -1386,6 +1691,15 @@ func classify(c Case, truths []fileTruth, want []finding, mode string) pbt.Verdi
 	sort.Strings(ig)
 	v.Canon = fmt.Sprintf("%s|%s|ignore=%v|sort=%v", mode, strings.Join(canon, ";"), ig, c.Sort)
 	return v
+}
+
+func kindIndex(kind string) int {
+	for i, k := range sevenKinds {
+		if k == kind {
+			return i
+		}
+	}
+	return -1
 }
 
 func countDecoys(body []Stmt, top bool, labels map[string]bool) {
@@ -1417,6 +1731,32 @@ func countDecoys(body []Stmt, top bool, labels map[string]bool) {
 		if s.Kind == "comment" {
 			labels["block_comment_in_body"] = true
 		}
+		if s.Kind == "if" && s.OpenOwn && s.H > 1 {
+			labels["condition_whose_paren_ends_its_line"] = true
+			if top && near(s.H, 4) {
+				labels["top_level_condition_whose_paren_ends_its_line_H_near_threshold"] = true
+			}
+		}
+		if s.Kind == "if" && s.IfAlone {
+			labels["if_keyword_on_a_line_of_its_own"] = true
+			if top && near(s.H, 4) {
+				labels["top_level_if_keyword_on_own_line_H_near_threshold"] = true
+			}
+		}
+		if s.Kind == "switch" && s.Arrow {
+			labels["arrow_switch_statement"] = true
+			if top {
+				labels["arrow_switch_statement_top_level"] = true
+			}
+		}
+		switch s.Kind {
+		case "block":
+			labels["decoy_bare_block"] = true
+		case "labeled":
+			labels["decoy_labelled_loop"] = true
+		case "trywith":
+			labels["decoy_try_with_resources"] = true
+		}
 		switch s.Kind {
 		case "for", "foreach", "while", "do":
 			for _, in := range s.Inner {
@@ -1447,13 +1787,48 @@ func checkAPI(c Case) pbt.Verdict {
 	root := cli.Scratch("c10-")
 	defer os.RemoveAll(root)
 	src := filepath.Join(root, "src")
-	writeTree(src, truths)
-	if msg := judgeAPI(src, truths, [][]string{c.Ignore}, c.Sort); msg != "" {
+	var opt apiOpt
+	how := ""
+	if len(c.Prior) > 0 && c.PriorSame {
+		// the directory holds another tree first; this one replaces it after that has been analysed
+		opt.Prepare = func() {
+			_ = os.RemoveAll(src)
+			writeTree(src, truths, c.Stray)
+		}
+	} else {
+		writeTree(src, truths, c.Stray)
+	}
+	if c.Single {
+		opt.Path = filepath.Join(src, filepath.FromSlash(truths[0].Rel))
+		how = " path=<DIR>/" + truths[0].Rel
+	}
+	if len(c.Prior) > 0 {
+		opt.PriorRoot = filepath.Join(root, "prior")
+		if c.PriorSame {
+			opt.PriorRoot = src
+		}
+		opt.PriorTruths = renderAll(c.Prior)
+		opt.PriorIgnore = c.PriorIgnore
+		writeTree(opt.PriorRoot, opt.PriorTruths)
+		how += fmt.Sprintf(" after a tree of %d file(s) analysed first with ignore=%v (same directory: %v)", len(c.Prior), c.PriorIgnore, c.PriorSame)
+	}
+	if msg := judgeAPI(src, truths, [][]string{c.Ignore}, c.Sort, opt); msg != "" {
 		// no scratch-directory names in the message: rapid compares messages while shrinking
-		return pbt.Fail("%s\ncase: ignore=%v sort=%v\n%s", strings.ReplaceAll(msg, src, "<DIR>"), c.Ignore, c.Sort, texts(truths))
+		if opt.PriorRoot != "" && !c.PriorSame {
+			msg = strings.ReplaceAll(msg, opt.PriorRoot, "<PRIOR>")
+		}
+		msg = strings.ReplaceAll(msg, src, "<DIR>")
+		all := texts(truths)
+		if len(c.Prior) > 0 {
+			all += "===== analysed first =====\n" + texts(opt.PriorTruths)
+		}
+		return pbt.Fail("%s\ncase: ignore=%v sort=%v%s\n%s", msg, c.Ignore, c.Sort, how, all)
 	}
 	var want []finding
-	for _, t := range truths {
+	for i, t := range truths {
+		if c.Single && i != 0 {
+			continue
+		}
 		want = append(want, expectedOf(src, t)...)
 	}
 	return classify(c, truths, want, "api")
@@ -1466,13 +1841,17 @@ func checkCLI(c Case) pbt.Verdict {
 	root := cli.Scratch("c10-")
 	defer os.RemoveAll(root)
 	src := filepath.Join(root, "src")
-	writeTree(src, truths)
+	writeTree(src, truths, c.Stray)
 	// how the directory is named on the command line; the report names files below it
 	cwd, dirArg, nameRoot := root, src, src
 	if c.RelDir {
 		dirArg, nameRoot = "src", "src"
 	}
-	switch c.DirStyle {
+	dirStyle := c.DirStyle
+	if c.Single {
+		dirStyle = 0
+	}
+	switch dirStyle {
 	case 1:
 		dirArg, nameRoot = "./src", "src"
 	case 2:
@@ -1480,8 +1859,20 @@ func checkCLI(c Case) pbt.Verdict {
 	case 3:
 		cwd, dirArg, nameRoot = src, "", "."
 	}
+	if c.Single {
+		// the path of one source file instead of a directory: the report is about that file
+		dirArg = filepath.Join(nameRoot, filepath.FromSlash(truths[0].Rel))
+	}
+	if c.StaleReport {
+		// reports of an earlier run, longer than anything this run writes
+		junk := "[" + strings.Repeat("{\"BS\": \"longMethod\", \"EntityName\": \"stale\"},\n", 6000) + "{}]\n"
+		cli.WriteTree(cwd, map[string]string{"coca_reporter/bs.json": junk, "coca_reporter/nodeInfos.json": junk})
+	}
 	var want []finding
-	for _, t := range truths {
+	for i, t := range truths {
+		if c.Single && i != 0 {
+			continue
+		}
 		want = append(want, expectedOf(nameRoot, t)...)
 	}
 	fail := func(msg string) pbt.Verdict {
@@ -1834,6 +2225,81 @@ func sweepFiles(sc SweepCase) []File {
 	if sc.Accessors {
 		files = append(files, accessorSweepFiles(sc, mk)...)
 	}
+	if sc.Layouts {
+		files = append(files, layoutSweepFiles(sc, mk)...)
+	}
+	return files
+}
+
+// layoutSweepFiles: the thresholds of H, S, I and L under the layouts of widening a5.
+func layoutSweepFiles(sc SweepCase, mk func(string) File) []File {
+	var files []File
+	add := func(name string, edit func(*File), ms ...Method) {
+		f := mk(name)
+		f.Dir = "y"
+		f.Methods = ms
+		if edit != nil {
+			edit(&f)
+		}
+		files = append(files, f)
+	}
+	plainIf := Stmt{Kind: "if", H: 1, Compact: true}
+	// H{3,4}: "(" ending its line, `if` on a line of its own, ")" on a line of its own
+	for _, h := range []int{3, 4} {
+		for v := 1; v < 4; v++ {
+			for _, closeOwn := range []bool{false, true} {
+				m := Method{Kind: "normal", Name: "run", Mods: "public", Params: 1}
+				m.Body = []Stmt{plainIf, {Kind: "if", H: h, OpenOwn: v&1 != 0, IfAlone: v&2 != 0, CloseOwn: closeOwn, Compact: closeOwn, Else: true}, plainIf}
+				add(fmt.Sprintf("H%dx%dx%v", h, v, closeOwn), nil, padTo(m, 20))
+			}
+		}
+	}
+	// S{7,8}: arrow-form switch statements alone and mixed with classic ones
+	if sc.Arrows {
+		for _, sw := range []int{7, 8} {
+			for _, classic := range []int{0, 4} {
+				m := Method{Kind: "normal", Name: "run", Mods: "public", Params: 1}
+				for k := 0; k < sw; k++ {
+					st := Stmt{Kind: "switch", Compact: k%2 == 0, Arrow: k >= classic, N: 2}
+					m.Body = append(m.Body, st)
+				}
+				add(fmt.Sprintf("S%dx%d", sw, classic), nil, padTo(m, 60))
+			}
+		}
+	}
+	// I{7,8} and S{7,8} next to a bare block, a labelled loop and a try-with-resources holding more
+	for _, what := range []string{"if", "switch"} {
+		for _, n := range []int{7, 8} {
+			m := Method{Kind: "normal", Name: "run", Mods: "public", Params: 1}
+			one := Stmt{Kind: what, H: 1, Compact: true}
+			for k := 0; k < n; k++ {
+				m.Body = append(m.Body, one)
+				switch k {
+				case 1:
+					m.Body = append(m.Body, Stmt{Kind: "block", Inner: []Stmt{one, one, one}})
+				case 3:
+					m.Body = append(m.Body, Stmt{Kind: "labeled", Inner: []Stmt{one, one}})
+				case 5:
+					m.Body = append(m.Body, Stmt{Kind: "trywith", Inner: []Stmt{one, one, one}})
+				}
+			}
+			add(fmt.Sprintf("B%sx%d", what, n), func(f *File) { f.RichFill = n == 8 }, padTo(m, 40))
+		}
+	}
+	// L{30,31}: return type over two lines; filler from the wider table; the last brace of the file without newline
+	for _, l := range []int{30, 31} {
+		m := Method{Kind: "normal", Name: "run", Mods: "public", Ret: "Map<String, List<Integer>>", Params: 2, SplitHead: true, SplitRet: true}
+		m.Body = []Stmt{plainIf}
+		add(fmt.Sprintf("R%d", l), nil, padTo(m, l))
+		for _, i := range []int{7, 8} {
+			m := Method{Kind: "normal", Name: "run", Mods: "public", Params: 1}
+			for k := 0; k < i; k++ {
+				m.Body = append(m.Body, plainIf)
+			}
+			tail := 1 + (l+i)%2
+			add(fmt.Sprintf("F%dx%d", l, i), func(f *File) { f.RichFill, f.Tail = true, tail }, padTo(m, l))
+		}
+	}
 	return files
 }
 
@@ -2010,16 +2476,25 @@ func checkSweep(sc SweepCase) pbt.Verdict {
 
 var (
 	// class names; the last three contain "test"/"Test" without making the file a test file
-	classNames = []string{"Order", "Invoice", "Ledger", "Parser", "Engine", "Router", "Cache", "Account", "Planner", "Widget", "Contest", "LatestOrder", "TestBed"}
+	// and, since widening a5, names that equal words of the tool's own vocabulary, hold `$`, `_`,
+	// digits or non-ASCII letters, are one letter long, or come close to the test-file suffixes
+	classNames = []string{"Order", "Invoice", "Ledger", "Parser", "Engine", "Router", "Cache", "Account", "Planner", "Widget", "Contest", "LatestOrder", "TestBed",
+		"Interface", "Größe", "Order$Impl", "X", "_Util", "TestsSuite", "Class1", "DataClass"}
 	// ordinary method names; some share letters with get/set without being getters/setters,
 	// the last six contain "get"/"set" (not at the front) or are the usual companions of
 	// getters and setters in a value class
 	methodNames = []string{"process", "generate", "load", "send", "update", "build", "select", "handle", "apply", "gather", "merge", "serve",
 		"reset", "forget", "target", "offset", "toString", "hashCode"}
-	dirs     = []string{"", "", "core/model", "src/main/java/com/acme", "app", "com/acme/testing", "latest"}
+	dirs = []string{"", "", "core/model", "src/main/java/com/acme", "app", "com/acme/testing", "latest",
+		"dataClass", "testdata/fixtures", "src/test/javax/acme", "my sources", "longMethod/lazyElement"}
 	modsPool = []string{"public", "public", "private", "protected", "", "public static", "public final", "public synchronized", "static",
-		"@Override public", "@Deprecated protected", "public <T>", "private static <K, V>"}
-	retPool = []string{"", "", "int", "String", "boolean", "List<String>", "int[]"}
+		"@Override public", "@Deprecated protected", "public <T>", "private static <K, V>",
+		"@SuppressWarnings({\"a\", \"b\"}) public", "protected final"}
+	retPool = []string{"", "", "int", "String", "boolean", "List<String>", "int[]", "java.util.Optional<String>"}
+	// ordinary names that are no accessor's under any reading: `_`, `$`, digits, non-ASCII
+	// letters, one letter, very long, get/set not at the front or not in lower case
+	oddNames = []string{"_get", "$set", "größe", "x", "Settle", "GetReady", "SETUP", "unset", "isolate", "issue", "run2fa", "déjàVu", "gEt", "sEtValue",
+		"aVeryLongMethodNameThatGoesOnAndOnForMoreThanOneHundredCharactersBecauseSomebodyLikedSentencesAsNamesOfMethods"}
 )
 
 func aroundOr(t *rapid.T, label string, around []int, lo, hi int, weightAround int) int {
@@ -2052,7 +2527,9 @@ func genIf(t *rapid.T, depth int) Stmt {
 	s := Stmt{Kind: "if", H: genHeight(t, "h")}
 	if s.H > 1 {
 		s.CloseOwn = rapid.Bool().Draw(t, "closeOwn")
+		s.OpenOwn = rapid.IntRange(0, 3).Draw(t, "openOwn") == 3
 	}
+	s.IfAlone = rapid.IntRange(0, 9).Draw(t, "ifAlone") == 9
 	if rapid.IntRange(0, 2).Draw(t, "compact") == 2 {
 		s.Compact = true
 		if rapid.IntRange(0, 3).Draw(t, "compactChain") == 3 {
@@ -2074,6 +2551,7 @@ func genIf(t *rapid.T, depth int) Stmt {
 
 func genSwitch(t *rapid.T, depth int) Stmt {
 	s := Stmt{Kind: "switch"}
+	s.Arrow = rapid.IntRange(0, 3).Draw(t, "arrowSwitch") == 3 && !pbt.Excluded(arrowFeature)
 	if rapid.Bool().Draw(t, "compactSwitch") {
 		s.Compact = true
 		return s
@@ -2090,7 +2568,7 @@ func genContainer(t *rapid.T, depth int) Stmt {
 		style := rapid.SampledFrom([]int{0, 2, 3, 4, 1}).Draw(t, "decoyStyle")
 		return Stmt{Kind: "decoyline", N: rapid.IntRange(1, 10).Draw(t, "decoyN"), H: style}
 	}
-	kind := rapid.SampledFrom([]string{"for", "foreach", "while", "do", "try", "sync", "lambda"}).Draw(t, "container")
+	kind := rapid.SampledFrom([]string{"for", "foreach", "while", "do", "try", "sync", "lambda", "block", "labeled", "trywith"}).Draw(t, "container")
 	s := Stmt{Kind: kind}
 	if kind == "lambda" && rapid.Bool().Draw(t, "typedLambda") {
 		s.N = rapid.IntRange(1, 7).Draw(t, "lambdaParams")
@@ -2139,6 +2617,9 @@ func genNormalMethod(t *rapid.T, name string, big bool) Method {
 	m.Throws = rapid.IntRange(0, 4).Draw(t, "throws") == 4
 	m.BraceNext = rapid.IntRange(0, 3).Draw(t, "braceNext") == 3
 	m.SplitHead = !m.BraceNext && rapid.IntRange(0, 4).Draw(t, "splitHead") == 4
+	if m.SplitHead && rapid.IntRange(0, 2).Draw(t, "splitRet") == 2 {
+		m.Ret, m.SplitRet = "Map<String, List<Integer>>", true // the return type over two lines
+	}
 	if rapid.IntRange(0, 3).Draw(t, "hasDoc") == 3 {
 		m.Doc = rapid.IntRange(2, 4).Draw(t, "doc")
 	}
@@ -2264,12 +2745,18 @@ func genFile(t *rapid.T, idx int, used map[string]bool, reserve int) File {
 	used[f.Dir+"/"+f.Name] = true
 	if rapid.IntRange(0, 3).Draw(t, "hasPackage") > 0 {
 		f.Package = "com.acme." + strings.ToLower(base)
+		if base == "Interface" {
+			f.Package = "com.acme.contracts" // `interface` is a keyword
+		}
 	}
 	f.Indent = rapid.IntRange(0, 2).Draw(t, "indent")
 	f.BraceNext = rapid.IntRange(0, 3).Draw(t, "classBraceNext") == 3
 	f.BlankLines = rapid.IntRange(0, 2).Draw(t, "blank")
 	f.Header = rapid.IntRange(0, 2).Draw(t, "header")
 	f.Imports = rapid.IntRange(0, 3).Draw(t, "imports")
+	if f.Imports == 3 && rapid.Bool().Draw(t, "moreImports") {
+		f.Imports = rapid.IntRange(4, 7).Draw(t, "importsMore") // static, wildcard and repeated imports
+	}
 	f.Fields = rapid.IntRange(0, 3).Draw(t, "fields")
 	f.Interface = rapid.IntRange(0, 5).Draw(t, "interface") == 5
 	if rapid.IntRange(0, 2).Draw(t, "hasHeritage") == 2 {
@@ -2282,6 +2769,11 @@ func genFile(t *rapid.T, idx int, used map[string]bool, reserve int) File {
 	if !f.Interface && rapid.IntRange(0, 7).Draw(t, "initBlock") == 7 {
 		f.InitBlock = rapid.IntRange(1, 2).Draw(t, "initKind")
 	}
+	f.RichFill = rapid.IntRange(0, 2).Draw(t, "richFill") == 2
+	if rapid.IntRange(0, 3).Draw(t, "tail") == 3 {
+		f.Tail = rapid.IntRange(1, 2).Draw(t, "tailKind")
+	}
+	f.LongLine = rapid.IntRange(0, 15).Draw(t, "longLine") == 15
 
 	// shape of the method list
 	var normal, gs int
@@ -2290,6 +2782,9 @@ func genFile(t *rapid.T, idx int, used map[string]bool, reserve int) File {
 		normal, gs = 0, 0
 	case 1:
 		normal, gs = 0, rapid.IntRange(1, 4).Draw(t, "gsOnly")
+		if rapid.IntRange(0, 4).Draw(t, "gsOnlyMany") == 4 {
+			gs = rapid.IntRange(19, 22).Draw(t, "gsOnlyAround20") // twenty getters and setters make no large class
+		}
 	case 2:
 		normal, gs = 1, rapid.IntRange(0, 2).Draw(t, "gsFew")
 	case 3, 4:
@@ -2299,6 +2794,9 @@ func genFile(t *rapid.T, idx int, used map[string]bool, reserve int) File {
 		normal, gs = rapid.IntRange(15, 26).Draw(t, "normalMany"), rapid.IntRange(0, 6).Draw(t, "gsMany")
 	default:
 		normal, gs = rapid.IntRange(1, 4).Draw(t, "normalFew"), rapid.IntRange(0, 3).Draw(t, "gsSome")
+	}
+	if !f.Interface && normal == 0 && rapid.IntRange(0, 5).Draw(t, "abstractWithoutOrdinaryMethods") == 5 {
+		f.Abstract = true // an abstract class without methods, or with getters and setters only, is a class like any other
 	}
 	if !f.Interface && normal+gs > 0 && f.Fields < 2 {
 		f.Fields = 2 // n0 and names, which the bodies mention
@@ -2324,6 +2822,13 @@ func genFile(t *rapid.T, idx int, used map[string]bool, reserve int) File {
 			name = fmt.Sprintf("%s%d", rapid.SampledFrom(accessorLikeNames).Draw(t, "accessorLike"), k)
 			if bare := strings.TrimSuffix(name, strconv.Itoa(k)); !taken[bare] && rapid.Bool().Draw(t, "accessorLikeBare") {
 				name = bare // `set`, `getKind`: without the number that keeps the other names apart
+			}
+			taken[name] = true
+		} else if rapid.IntRange(0, 5).Draw(t, "oddName") == 5 {
+			odd := rapid.SampledFrom(oddNames).Draw(t, "odd")
+			name = fmt.Sprintf("%s%d", odd, k)
+			if !taken[odd] && rapid.Bool().Draw(t, "oddBare") {
+				name = odd
 			}
 			taken[name] = true
 		}
@@ -2386,6 +2891,14 @@ func genFile(t *rapid.T, idx int, used map[string]bool, reserve int) File {
 			genParamShape(t, &am)
 			f.Methods[len(f.Methods)-1] = am
 		}
+		if last := len(f.Methods) - 1; normal >= 2 && normal != 20 && !f.Abstract && f.Methods[last].Kind == "normal" &&
+			rapid.IntRange(0, 7).Draw(t, "nativeMethod") == 7 {
+			// a native method: no body, in a class that is not abstract
+			nm := Method{Kind: "abstract", Name: "nativeCall", Mods: "public native", Ret: "int",
+				Params: aroundOr(t, "nparams", []int{4, 5, 6, 7}, 0, 12, 5)}
+			genParamShape(t, &nm)
+			f.Methods[len(f.Methods)-1] = nm
+		}
 	}
 	return f
 }
@@ -2408,10 +2921,16 @@ func genIgnore(t *rapid.T) []string {
 	if rapid.IntRange(0, 3).Draw(t, "ignoreOther") == 3 {
 		// names that are no kind: unknown ones, another spelling, parts of kind names
 		ig = append(ig, rapid.SampledFrom([]string{"refusedBequest", "graphConnectedCall", "noSuchSmell", "longmethod",
-			"Class", "long", "Method", "Element", "complex", "dataClasses"}).Draw(t, "other"))
+			"Class", "long", "Method", "Element", "complex", "dataClasses", "DataClass", "LONGMETHOD"}).Draw(t, "other"))
 	}
 	if len(ig) > 0 && rapid.IntRange(0, 5).Draw(t, "ignoreTwice") == 5 {
 		ig = append(ig, ig[0]) // a kind named twice
+	}
+	if rapid.IntRange(0, 7).Draw(t, "ignoreEmptyName") == 7 {
+		ig = append(ig, "") // what a trailing comma of -x leaves behind
+	}
+	if len(ig) > 1 && rapid.IntRange(0, 3).Draw(t, "ignoreShuffled") > 0 {
+		ig = rapid.Permutation(ig).Draw(t, "ignoreOrder") // the names in another order than the tool lists its kinds
 	}
 	return ig
 }
@@ -2428,6 +2947,17 @@ func genCase(t *rapid.T) Case {
 	}
 	c.Ignore = genIgnore(t)
 	c.Sort = rapid.Bool().Draw(t, "sort")
+	if rapid.IntRange(0, 4).Draw(t, "hasPrior") == 4 {
+		// another tree goes through the same process first
+		usedPrior := map[string]bool{}
+		for i, n := 0, rapid.IntRange(1, 2).Draw(t, "priorFiles"); i < n; i++ {
+			c.Prior = append(c.Prior, genFile(t, i, usedPrior, 0))
+		}
+		c.PriorIgnore = genIgnore(t)
+		c.PriorSame = rapid.IntRange(0, 2).Draw(t, "priorSame") == 2
+	}
+	c.Single = rapid.IntRange(0, 7).Draw(t, "single") == 7
+	c.Stray = rapid.IntRange(0, 4).Draw(t, "stray") == 4
 	return c
 }
 
@@ -2494,6 +3024,9 @@ func genSortCase(t *rapid.T) Case {
 	if rapid.IntRange(0, 2).Draw(t, "otherFlagStyle") == 2 {
 		c.FlagStyle = rapid.IntRange(1, 3).Draw(t, "flagStyle")
 	}
+	c.Single = rapid.IntRange(0, 7).Draw(t, "single") == 7
+	c.Stray = rapid.IntRange(0, 4).Draw(t, "stray") == 4
+	c.StaleReport = rapid.IntRange(0, 2).Draw(t, "staleReport") == 2
 	return c
 }
 
@@ -2509,18 +3042,24 @@ func genSweep(t *rapid.T) SweepCase {
 		Varargs:         !pbt.Excluded(varargsFeature),
 		InterfaceBodies: !pbt.Excluded(interfaceBodyFeature),
 		Accessors:       true,
+		Layouts:         true,
+		Arrows:          !pbt.Excluded(arrowFeature),
 	}
 }
 
 func init() {
 	pbt.SetProperty("C10")
-	pbt.Describe("Conventional Java classes/interfaces printed from a parameter vector by a line-tracking printer: per method the distance L between declaration line and closing brace, parameter count P, top-level if count I and classic switch count S (with nested ifs/switches, else-if chains written over several lines or on one line, ifs/switches inside for/while/do/try/synchronized/lambda bodies, multi-line loop conditions, explicitly typed lambda parameters, block comments and long initialiser blocks full of ifs as decoys that must not count), heights H of top-level if conditions; per class M ordinary methods (some named generate/select/send/serve, some containing get/set inside the name: reset, forget, target, offset, or the usual companions toString/hashCode) and G getters/setters (getX() returning a value, setX(v); written on one line, on three, or with a body of their own: ifs, switches, tall conditions and lengths around the thresholds like any other method), and methods of the other kinds (ordinary, static, abstract, default) whose names start like an accessor's without being one by signature or spelling (setBounds/getKind/setRange/getOrDefault with any parameter count, settle, getaway, setup, getting, bare get/set, isReady/isEmpty), all with bodies and parameter lists around the method-level thresholds; parameter lists on one line or wrapped over several lines, with annotated / nested-generic parameter types, optionally ending in a variable-arity parameter; modifiers/return type on a line of their own; ordinary methods with an empty body on one line; default and static interface methods with bodies; class headers public / package-private / final / annotated / generic; LF or CRLF line ends; 1-4 files per tree (the same class name may recur in another directory; directory and class names containing test/Test that are no test files), optionally a package-info.java, x ignore lists (subsets of the seven kinds, a kind named twice, names that are no kind: unknown ones, another spelling, parts of kind names such as Class/long/Method) x sort on/off. Sub-check sweep (bounded-exhaustive, one evaluation): quick tier L{29..32} x P{4..7} x I{6..9} x H{2..5} without switches (256 one-method classes) + I{6..9} x S{6..9} on the diagonal of (L,P,H) (64); thorough tier the whole product L x P x I x S{0,6..9} x H (1280); both + M{0,1,18..21} x G{0,1,3} x class/interface (36) + interface P{4..7} + boundary shapes: P{4..7} x varargs x wrap style{0,1,2} x L{30,31} (48) and as interface methods (8), default methods L{30,31} x I{7,8} x H{3,4} (8), M{19,20} x G{0,2} with look-alike names (4), accessor pairs plus one look-alike method (8), overloads at M{19,20} (2), two or three accessors on one line with M{0,20} (4), getters and setters with bodies L{30,31} x I{7,8} x H{3,4} alone / next to an accessor / next to an ordinary method (16) and with S{7,8} (4), accessor-named methods of other kinds P{5,6} x 8 names in classes (16) and as interface methods (8), with (L,I,S,H) at (30,7,0,3), (31,8,0,4), (31,2,8,1) (14), as default methods (6), next to 17/18 ordinary methods (2); every chunk of 64 files is judged under all 128 ignore subsets, each with SortSmellByType, and finally once more without ignore list on the same analysis. Sub-checks vec (API: BadSmellApp.AnalysisPath + IdentifyBadSmell(nil), IdentifyBadSmell(ignore), IdentifyBadSmell(nil) again on the same analysis + SortSmellByType) and cli (`coca bs [-p DIR] [-x kinds] [-s type]`, bs.json; DIR absolute, relative, ./DIR, DIR/ or the default . from inside; flags spelt -x v, -x=v, --ignore v, --ignore=v; biased to groups whose sizes ascend in report order, also across a change in the number of digits) draw random vectors biased to the thresholds. Oracle: findings of the seven kinds computed from the printer's line record (kind, file, line for method-level kinds, size for sized kinds); other kinds are ignored. Non-trivial = some parameter at threshold-1/threshold/threshold+1 (L 29-31, P 4-6, M 19-21, I/S 7-9, H 3-5, or a class with 0/1 methods); distinct = the vector with ignore list, sort flag and entry point.",
+	pbt.Describe("Conventional Java classes/interfaces printed from a parameter vector by a line-tracking printer: per method the distance L between declaration line and closing brace, parameter count P, top-level if count I and classic switch count S (with nested ifs/switches, else-if chains written over several lines or on one line, ifs/switches inside for/while/do/try/synchronized/lambda bodies, multi-line loop conditions, explicitly typed lambda parameters, block comments and long initialiser blocks full of ifs as decoys that must not count; since widening a5 also bare blocks, labelled loops and try-with-resources holding ifs/switches, and filler lines from a table of one-line statements that are neither: object/array creation, call chains, method references, lambdas in arguments, conditional expressions, casts, labelled statements named iffy/switcher, empty statements, assertions, a switch expression as an initialiser, literals and comments that look like code), switch statements in classic form or written with `case X ->` rules, heights H of top-level if conditions (\"(\" followed by the first operand or ending its line, \")\" closing the last operand's line or on a line of its own, the keyword `if` on the condition's line or on the line above); per class M ordinary methods (some named generate/select/send/serve, some containing get/set inside the name: reset, forget, target, offset, or the usual companions toString/hashCode) and G getters/setters (getX() returning a value, setX(v); written on one line, on three, or with a body of their own: ifs, switches, tall conditions and lengths around the thresholds like any other method), and methods of the other kinds (ordinary, static, abstract, default) whose names start like an accessor's without being one by signature or spelling (setBounds/getKind/setRange/getOrDefault with any parameter count, settle, getaway, setup, getting, bare get/set, isReady/isEmpty), all with bodies and parameter lists around the method-level thresholds; parameter lists on one line or wrapped over several lines, with annotated / nested-generic parameter types, optionally ending in a variable-arity parameter; modifiers/return type on a line of their own, the return type itself over two lines; ordinary methods with an empty body on one line; native methods; default and static interface methods with bodies; ordinary method names with `_`, `$`, digits, non-ASCII letters, one letter, more than 100 letters, get/set in another case (GetReady, Settle, SETUP, gEt) or not at the front (_get, $set, unset); class headers public / package-private / final / annotated / generic, abstract classes without ordinary methods; class names that are words of the tool (Interface, DataClass, Class1), hold `$`, `_`, non-ASCII letters or one letter, or come close to the test-file suffixes (TestsSuite); LF or CRLF line ends, with or without final newline, text after the closing brace, a line longer than 65536 bytes; static, wildcard and repeated imports; 1-4 files per tree (the same class name may recur in another directory; directory and class names containing test/Test that are no test files: com/acme/testing, testdata/fixtures, src/test/javax/acme; directories named like kinds or holding a blank), optionally a package-info.java, optionally files that are no Java sources (X.java.orig, X.java~, X.javax, X.java.txt, .kt, a .gitignore whose patterns match no source), x ignore lists (subsets of the seven kinds in the tool's or in another order, a kind named twice, the empty name, names that are no kind: unknown ones, another spelling or case, parts of kind names such as Class/long/Method) x sort on/off x histories (API: another tree analysed and reported in the same process right before, in another directory or in the very directory whose content is then replaced; CLI: report files of an earlier run present, the run with options after the plain run in the same working directory) x the path handed over (the directory, or the path of one source file: the report is then about that file alone). Sub-check sweep (bounded-exhaustive, one evaluation): quick tier L{29..32} x P{4..7} x I{6..9} x H{2..5} without switches (256 one-method classes) + I{6..9} x S{6..9} on the diagonal of (L,P,H) (64); thorough tier the whole product L x P x I x S{0,6..9} x H (1280); both + M{0,1,18..21} x G{0,1,3} x class/interface (36) + interface P{4..7} + boundary shapes: P{4..7} x varargs x wrap style{0,1,2} x L{30,31} (48) and as interface methods (8), default methods L{30,31} x I{7,8} x H{3,4} (8), M{19,20} x G{0,2} with look-alike names (4), accessor pairs plus one look-alike method (8), overloads at M{19,20} (2), two or three accessors on one line with M{0,20} (4), getters and setters with bodies L{30,31} x I{7,8} x H{3,4} alone / next to an accessor / next to an ordinary method (16) and with S{7,8} (4), accessor-named methods of other kinds P{5,6} x 8 names in classes (16) and as interface methods (8), with (L,I,S,H) at (30,7,0,3), (31,8,0,4), (31,2,8,1) (14), as default methods (6), next to 17/18 ordinary methods (2), H{3,4} x (\"(\" ending its line, `if` on the line above, both) x \")\" on its own line or not (12), arrow-form switches S{7,8} alone and mixed with four classic ones (4), I{7,8} and S{7,8} next to a bare block, a labelled loop and a try-with-resources holding more (4), return type over two lines L{30,31} (2), wider filler table with or without final newline L{30,31} x I{7,8} (4); every chunk of 64 files is judged under all 128 ignore subsets, each with SortSmellByType, and finally once more without ignore list on the same analysis. Sub-checks vec (API: BadSmellApp.AnalysisPath + IdentifyBadSmell(nil), IdentifyBadSmell(ignore), IdentifyBadSmell(nil) again on the same analysis + SortSmellByType) and cli (`coca bs [-p DIR] [-x kinds] [-s type]`, bs.json; DIR absolute, relative, ./DIR, DIR/ or the default . from inside; flags spelt -p d -x v, -p=d -x=v, --path d --ignore v, --path=d --ignore=v; biased to groups whose sizes ascend in report order, also across a change in the number of digits) draw random vectors biased to the thresholds. Oracle: findings of the seven kinds computed from the printer's line record (kind, file, line for method-level kinds, size for sized kinds); other kinds are ignored. Non-trivial = some parameter at threshold-1/threshold/threshold+1 (L 29-31, P 4-6, M 19-21, I/S 7-9, H 3-5, or a class with 0/1 methods); distinct = the vector with ignore list, sort flag and entry point.",
 		"the line a declaration starts on is the line of its modifiers and return type: no annotations on lines of their own above a method; one top-level type per file; no nested, local or anonymous types; constructors only where they cannot affect a method count near a threshold",
 		"getters/setters are getX() returning a value and setX(v) with one parameter, whatever their bodies hold (a setter that validates with eight ifs is still a setter for largeClass/dataClass, and a method like any other for the four method-level kinds, which the statement gives for methods without exception)",
 		"the statement does not say whether a method that is no such accessor but whose name starts with get/set/is (setBounds with six parameters, getKind(int), settle, getaway, isReady) is a getter/setter: such methods are generated only in interfaces and in classes that also have at least one method of an ordinary name and, counting them, fewer than 20 methods that are not getters/setters, so that largeClass, dataClass and lazyElement come out the same under both readings (the expected-value computation refuses any other placement); their method-level findings are asserted in full",
 		"else-if branches, ifs inside any nested block and loop conditions do not count as top-level ifs (DESIGN C10)",
 		"graphConnectedCall findings (third-party state leak, DESIGN section 6 row 22) are left out of every comparison",
 		"a file without any type (package-info.java) must produce no finding of the seven kinds",
+		"a condition is the parenthesised expression: its start line and its height are taken from \"(\" to \")\" also where the keyword `if` stands on the line above",
+		"a switch statement written with `case X ->` rules is a switch statement (a switch expression used as an initialiser is none); generator feature "+arrowFeature+" belongs to a defect found by the checklist audit (such statements are not counted: notes/proposed/C10-arrow-switch-statement.patch, replays/C10/fixed-arrow-switch-statement.json); it is switched off only if known_findings.json lists it as known",
+		"not generated because the statement leaves the expected value open or the tool treats the path specially: a receiver parameter (`void m(Order this, int a)`: one of the \"parameters\" or not), enums / records / annotation types (classes or not), labelled ifs, paths containing testData or ending in Test.java / Tests.java or below src/test/java/, directories named like a Java file, a .gitignore that matches sources, a byte order mark (the shipped lexer takes it for a letter and the parse fails), blanks inside the -x list",
+		"pointed at one source file instead of a directory, the tool reports on that file and names it by the path handed over",
 		"file names are compared as the tool prints them: the directory as named on the command line (cleaned) joined with the path below it",
 		"generator features "+varargsFeature+" and "+interfaceBodyFeature+" belong to two defects found while widening (notes/proposed/C10-*.patch, replays/C10/fixed-varargs-parameter.json, fixed-interface-method-body.json); they are switched off only if known_findings.json lists them as known",
 		"the quick tier's sweep is a reduced cross because the shipped grammar needs ~6 ms per classic switch statement in full LL mode; the generated files are validated with the shipped parser in two stages (SLL, then LL on error)")
